@@ -439,3 +439,20 @@ package scanner
 //@   ensures je != nil && old(len(je.includeTrace)) == 0 ==> len(je.includeTrace) == len(s.stack)
 //@        && (forall k :: 0 <= k && k < len(s.stack) ==> je.includeTrace[k].path == s.stack[len(s.stack)-1-k].scanner.file.name)
 //@   ensures je != nil && old(len(je.includeTrace)) != 0 ==> len(je.includeTrace) == old(len(je.includeTrace))
+
+// ---------------------------------------------------------------- regex bodies: exact transitions (C14: the lexeme ends at the first unescaped '/')
+
+//@ func stateRegexBody
+//@   tag C14
+//@   ensures [C14] ret == nil && c == 92 ==> s.step == stateRegexBodyAfterSlash && s.finds == old(s.finds) && s.curIndex == old(s.curIndex)
+//@   ensures [C14] ret == nil && c == 47 ==> s.step == stateBodyEnded && len(s.finds) == old(len(s.finds)) + 1 && s.finds[len(s.finds)-1].type_ == 9 && s.finds[len(s.finds)-1].position == old(s.curIndex)
+//@   ensures [C14] ret == nil && c != 47 && c != 92 ==> s.step == stateRegexBody && s.finds == old(s.finds) && s.curIndex == old(s.curIndex)
+//@   ensures [C14] c == 0 ==> ret != nil
+
+//@ func stateRegexBodyAfterSlash
+//@   tag C14
+//@   ensures [C14] ret == nil && s.step == stateRegexBody && s.finds == old(s.finds) && s.curIndex == old(s.curIndex)
+
+//@ func stateRegexFirstChar
+//@   tag C14
+//@   ensures [C14] c == 47 ==> ret != nil
